@@ -262,7 +262,7 @@ def run_shard(rep, tier, seed, shard, nshards):
     if tier == "thorough" and shard == 0:
         repo_tests_under_sanitizer(rep)
     dl = Deadline(budget(tier, 60, 900))
-    ncases = budget(tier, 120, 2500)
+    ncases = budget(tier, 220, 2500)
     for k in range(ncases):
         if dl.expired():
             break
